@@ -93,7 +93,12 @@ func (o *UntypedRequestBinder) Bind(request *http.Request, routeParams RoutePara
 		}
 
 		if binder.validator != nil {
-			rr := binder.validator.Validate(validatable(target))
+			value := validatable(target)
+			if param.In == "body" && isNil(target) {
+				// the body was the JSON null: it is validated as null, not as an empty object or array
+				value = nil
+			}
+			rr := binder.validator.Validate(value)
 			if rr != nil && rr.HasErrors() {
 				result = append(result, rr.AsError())
 			}
@@ -138,6 +143,15 @@ func validatable(target reflect.Value) interface{} {
 		return items
 	}
 	return target.Interface()
+}
+
+// isNil tells whether a bound value is a nil map, slice, interface or pointer.
+func isNil(v reflect.Value) bool {
+	switch v.Kind() { //nolint:exhaustive
+	case reflect.Map, reflect.Slice, reflect.Interface, reflect.Ptr:
+		return v.IsNil()
+	}
+	return false
 }
 
 // SetLogger allows for injecting a logger to catch debug entries.
